@@ -102,6 +102,10 @@ def body_app(buf, max_body):
         # every later presentation of the body is the same bytes (a signature-checking hook, then the handler; a peek, then a full read)
         peek = app.request.body.read(3)
         again = app.request.body.read()
+        # the application corrects the media type of its own request (a proxy mislabelled it): the body is what it was
+        app.request['CONTENT_TYPE'] = 'application/x-corrected'
+        if app.request.body.read() != res['out']:
+            again = b'<body changed after a CONTENT_TYPE assignment>'
         # a copy of the request (as handed to a sub-application or a background task) presents the same body
         try:
             via_copy = app.request.copy().body.read()
@@ -317,7 +321,7 @@ def encode_chunked(rng, payload, max_line):
     for k in sizes + [0]:
         for _ in range(20):
             h = ('%x' % k) if rng.random() < 0.5 else ('%X' % k)
-            h = '0' * rng.choice([0, 0, 1, 2]) + h
+            h = '0' * rng.choice([0, 0, 1, 2, 2, 16, 20]) + h        # any number of leading zeros is legal
             # chunk extensions: tokens and quoted strings, the latter with quoted pairs (an escaped quote, an escaped backslash)
             ext = rng.choice(['', '', ';a', ';name=val', ';q="x y"', ';a="x\\"y"', ';a="x;y=z"', ';k="\\\\"', ';t="q\\"uo\\"te\\""', ';a=""', ';a="\\"";b=c'])
             line = (h + ext).encode() + b'\r\n'
